@@ -197,11 +197,12 @@ pub fn run(a: &Args) -> i32 {
     let rounds = if thorough { 2 } else { 1 }; // number of (move, reply, search) extensions after the first search
     let mut hist_count = 0u64;
     let mut hist_samples = Vec::new();
-    let mut jobs: Vec<(&str, &str, u8)> = Vec::new();
+    // (seed, position, search depth, rounds of move-reply-search after the first search)
+    let mut jobs: Vec<(&str, &str, u8, usize)> = Vec::new();
     for (name, fen, dq, dt) in HIST_SEEDS {
         let maxd = if thorough { *dt } else { *dq };
         for depth in 1..=maxd {
-            jobs.push((name, fen, depth));
+            jobs.push((name, fen, depth, rounds));
         }
     }
     // material changes hands within two plies in these: the value the context saw for this side
@@ -210,12 +211,13 @@ pub fn run(a: &Args) -> i32 {
         if !thorough && (name.starts_with("rook-ending") || *name == "q-vs-rp") {
             continue; // the heavier ones: thorough tier only
         }
-        jobs.push((name, fen, 4));
-        if thorough {
-            jobs.push((name, fen, 5));
+        jobs.push((name, fen, 4, 1));
+        if thorough && !(name.starts_with("rook-ending") || *name == "q-vs-rp") {
+            jobs.push((name, fen, 5, 1));
         }
     }
-    for (name, fen, depth) in jobs.iter() {
+    for (name, fen, depth, rounds) in jobs.iter() {
+        let rounds = *rounds;
         let root = Pos::from_fen(fen).unwrap();
         if !root.is_consistent() {
             eprintln!("MACHINERY-ERROR: inconsistent C08 seed {}", name);
@@ -407,7 +409,7 @@ pub fn run(a: &Args) -> i32 {
     rep.add("distinct_(score,move)_outcomes", outcomes.lock().unwrap().len() as u64);
     rep.samples = hist_samples;
     rep.samples.push(json!({"part": "a", "cases": ncases, "example": cases.last().map(|c| json!({"fen": c.pos.to_fen(), "depth": c.depth, "class": c.class}))}));
-    rep.bounds = json!({"brand_new_context_cases": ncases, "history_rounds": rounds, "history_seeds": HIST_SEEDS.iter().map(|s| s.0).collect::<Vec<_>>(), "swing_seeds_depth_4_(and_5_in_thorough)": SWING_SEEDS.iter().filter(|s| thorough || !(s.0.starts_with("rook-ending") || s.0 == "q-vs-rp")).map(|s| s.1).collect::<Vec<_>>(), "oracle": "plain minimax at depths 1..3; memoised minimax from depth 4, cross-checked against the plain one on the first 12 roots", "endgame_depths": if thorough { "3..6" } else { "3..5" }});
+    rep.bounds = json!({"brand_new_context_cases": ncases, "history_rounds": rounds, "history_seeds": HIST_SEEDS.iter().map(|s| s.0).collect::<Vec<_>>(), "swing_seeds_depth_4_(thorough: all seven, the four small ones also at depth 5; one round)": SWING_SEEDS.iter().filter(|s| thorough || !(s.0.starts_with("rook-ending") || s.0 == "q-vs-rp")).map(|s| s.1).collect::<Vec<_>>(), "oracle": "plain minimax at depths 1..3; memoised minimax from depth 4, cross-checked against the plain one on the first 12 roots", "endgame_depths": if thorough { "3..6" } else { "3..5" }});
     rep.rule = "state = (position, depth, prior searches of the context); each search is one real alpha_beta_search; its score and move are compared with an exhaustive cache-free minimax over the model's moves with the engine's leaf evaluation".into();
     rep.assumptions = vec!["half-move clocks stay far below the draw threshold (seeds start at 0)".into(), "leaf scores come from the engine's own evaluate::score (its correctness is C18's / C06's subject)".into(), "reduced LRU capacity for generators (hook)".into()];
     rep.mandatory = vec!["searches_with_brand_new_context".into(), "histories_with_reused_context".into()];
